@@ -349,6 +349,9 @@ def run(argv):
     if clim is not None and len(clim) != 2:
         verif.util.error("-clim <values> must have exactly 2 values")
 
+    if bin_type is not None and bin_type not in ["below", "below=", "=within", "within", "within=", "=within=", "above", "above="]:
+        verif.util.error("-b <type> must be one of below, below=, =within, within, within=, =within=, above, above=")
+
     if dim_agg_length is not None and dim_agg_length <= 0:
         verif.util.error("-T <value> must be greater than 0")
 
